@@ -161,7 +161,7 @@ def unit_reach(unit):
             ur.res['unknown'] += 1      # exploration cut short: inconclusive, never a violation
         else:
             ur.violation({'module': 'stdnum.numdb', 'func': 'info', 'options': name, 'kind': 'entry-unreachable', 'witness': '/'.join(path_lows + [low]),
-                          'frame': '%s:%s-%s' % (name, low, high),
+                          'frame': '%s:%s' % (name, '/'.join(path_lows + ['%s-%s' % (low, high)])),
                           'detail': 'no number inside %s-%s (under %s) yields this entry\'s properties %r' % (low, high, '/'.join(path_lows) or 'top level', props),
                           'steps': [{'mod': 'numdb_probe', 'file': _HELPER, 'func': 'probe_shipped', 'args': [name, ''.join(path_lows) + low], 'kwargs': {}}]})
     return ur.finish()
@@ -312,8 +312,9 @@ def main(args):
     if 'iban' in trees:
         cs = []
         for e in trees['iban']:
-            if e[3].get('length'):
-                cs.append((e[1], int(e[3]['length']), e[3].get('bban', '')))
+            if e[3].get('bban'):
+                import re
+                cs.append((e[1], 4 + sum(int(n) for n in re.findall(r'(\d+)!', e[3]['bban'])), e[3]['bban']))
         if tier == 'quick':
             cs = rnd.sample(cs, min(40, len(cs)))
         for i in range(0, len(cs), 2):
